@@ -419,7 +419,12 @@ def main(prop_id, tier, seed):
     t0 = time.time()
     prop_id = prop_id.upper()
     import shutil
-    shutil.rmtree(os.path.join(OUT_ROOT, "replays", "new", prop_id), ignore_errors=True)
+    newdir = os.path.join(OUT_ROOT, "replays", "new", prop_id)
+    if os.path.isdir(newdir) and os.listdir(newdir):
+        # keep the previous run's failing cases for one more generation (they are the only copy of a shrunk failure)
+        shutil.rmtree(newdir + ".prev", ignore_errors=True)
+        os.rename(newdir, newdir + ".prev")
+    shutil.rmtree(newdir, ignore_errors=True)
     ctx = multiprocessing.get_context("fork")
     tasks = [(prop_id, tier, seed, s, NSHARDS) for s in range(NSHARDS)]
     timeout = int(os.environ.get("VERIF_TIMEOUT", "1500" if tier == "quick" else "14000"))
